@@ -68,6 +68,18 @@ class World:
             groups.setdefault(m[0], []).append(c)
         return list(groups.items())
 
+    def class_attr(self, cls, attr):
+        """AST of a class-level constant `attr = <expr>` found along the MRO."""
+        for c in mro(cls):
+            info = self.classes.get(c)
+            if not info:
+                continue
+            for st_ in info["node"].body:
+                if isinstance(st_, ast.Assign) and len(st_.targets) == 1 and isinstance(st_.targets[0], ast.Name) \
+                        and st_.targets[0].id == attr:
+                    return st_.value
+        return None
+
     def property_overrides(self, static_cls, attr):
         """Subclasses of static_cls (grouped by defining class) where attr is a @property."""
         key = (static_cls, attr)
@@ -502,6 +514,14 @@ def _b_noop(ex, st, args, kwargs, node, spec):
     return None
 
 
+def _b_print(ex, st, args, kwargs, node, spec):
+    """print(...) to a file: counted in the ghost variable $nprinted; the arguments are kept in $lastprint."""
+    if "file" in kwargs:
+        st.env["$nprinted"] = st.env.get("$nprinted", z3.IntVal(0)) + 1
+        st.env["$lastprint"] = TupV(args)
+    return None
+
+
 def _b_copy(ex, st, args, kwargs, node, spec):
     v = args[0]
     if isinstance(v, ObjV) and "__id__" in v.fields:
@@ -533,7 +553,7 @@ BUILTINS = {
     "defaultdict": _b_defaultdict, "collections.defaultdict": _b_defaultdict,
     "len": _b_len, "min": _minmax(True), "max": _minmax(False), "abs": _b_abs, "int": _b_int, "float": _b_float,
     "bool": _b_bool, "isinstance": _b_isinstance, "ord": _b_ord, "chr": _b_chr, "str": _b_str, "list": _b_list,
-    "tuple": _b_tuple, "sum": _b_sum, "any": _b_any, "all": _b_all, "print": _b_noop,
+    "tuple": _b_tuple, "sum": _b_sum, "any": _b_any, "all": _b_all, "print": _b_print,
     "copy.copy": _b_copy, "copy": _b_copy, "__fstring__": lambda ex, st, a, k, n, s: StrV(fresh("f.arr", AII), fresh("f.n", I)),
     "__sizeof__": lambda ex, st, a, k, n, s: z3.IntVal(1),
     "logger.debug": _b_noop, "logger.info": _b_noop, "logger.warning": _b_noop, "logger.error": _b_noop,
